@@ -7,6 +7,7 @@ CONSTANTS
   Texts = {}
   Keys = {}
   MaxLevel = 99
+  NameVectors <- NoVectors
   InitMode = "all"
   LogFields = {"kids", "ns"}
   Ops = {"add_child", "remove_child", "add_namespace", "remove_namespace"}
